@@ -403,9 +403,13 @@ func coqBody(c *Case) string {
 				}
 				fs[j] = "(" + cstr(f.Name) + ", " + v + ")"
 			}
-			ls[i] = fmt.Sprintf("IL %s %s %s %s", cstr(l.Meas), clabels(l.Tags), clist(fs), cz(l.Ts))
+			ts := "(Some " + cz(l.Ts) + ")"
+			if l.NoTs {
+				ts = "None"
+			}
+			ls[i] = fmt.Sprintf("IL %s %s %s %s", cstr(l.Meas), clabels(l.Tags), clist(fs), ts)
 		}
-		return fmt.Sprintf("BInflux %s %s", cz(c.Body.Precision), clist(ls))
+		return fmt.Sprintf("BInflux %s %s %s", cz(c.Body.Precision), influxClock(c), clist(ls))
 	case "ddlog":
 		ls := make([]string, len(c.Body.DDLog))
 		for i, e := range c.Body.DDLog {
